@@ -71,7 +71,11 @@ LEVEL = {'text': 'Proof: for every feature list, language system, switch map and
          'Regular/Go Mono files with swapped cmap/kern tables) and by evaluating the postcondition, the '
          'kern specification, the 200-call determinism check and the trivial-case predicate on outputs of '
          'the real code; the kern specification is additionally compared with golang.org/x/image/font/sfnt '
-         'Kern on single-subtable tables (layout.kern.ximage).',
+         'Kern on single-subtable tables (layout.kern.ximage). The font files of layout.text vary every field '
+         'sfnt.Read could consult when deciding on the synthesised tables (post.isFixedPitch 0/1/0xFFFFFFFF x '
+         'equal/differing/absent hmtx widths, OS/2 panose, empty GSUB/GPOS present, kern with 0 pairs); '
+         'layout.ligd evaluates "proportional by widths, no GSUB, liga enabled => the mapped standard '
+         'ligatures are applied, longest first" on the real output.',
  'note': 'Trusted: Lean kernel + 3 standard axioms; hand-written models mirror lookup.go, kern.go, '
          'ligatures.go, layout.go as checked by sampled correspondence; the kern specification is my reading '
          'of the OpenType kern chapter; default feature sets, kern masks, the ligature list and the '
